@@ -467,6 +467,72 @@ class HookTap(logging.Handler):
             self.commands.append(msg[len("Executing storage hook: '"):-1])
 
 
+def leftover_level(ctx):
+    """states a crash leaves behind: the temporary directories of interrupted atomic writes (and other reserved names) inside a
+    collection and inside its cache folders (item / history / sync-token).  They are internal files: every listing, sync and read of the
+    collection answers as if they were not there, and none of them appears as a member (live or deleted) in any answer"""
+    import itertools
+    from common import parse_multistatus
+    from radicale import pathutils
+    sync = ('<?xml version="1.0"?><D:sync-collection xmlns:D="DAV:"><D:sync-token>%s</D:sync-token><D:prop><D:getetag/></D:prop>'
+            '</D:sync-collection>')
+    plist = '<?xml version="1.0"?><D:propfind xmlns:D="DAV:"><D:prop><D:getetag/><D:sync-token/></D:prop></D:propfind>'
+    names = [".Radicale.tmp-k3j2hd", ".Radicale.tmp-left/", ".hidden", "draft~", ".Radicale.lock"]
+    layouts = list(itertools.product([False, True], repeat=2))
+    for (hist_sub, tok_sub), where in itertools.product(layouts if ctx.tier == "thorough" else layouts[::3], ["history", "sync-token", "item", "collection"]):
+        conf = {"storage": {"use_cache_subfolder_for_history": str(hist_sub), "use_cache_subfolder_for_synctoken": str(tok_sub)},
+                "auth": {"type": "none"}, "rights": permissive_rights()}
+        with App(conf) as app:
+            login = scenarios.LOGIN
+            scenarios.build_store(app, 0)
+            st0, _, t0 = app.request("REPORT", "/u/cal/", sync % "", login=login)
+            tok0 = parse_multistatus(t0)[2] if st0 == 207 else None
+            app.request("PUT", "/u/cal/gone.ics", scenarios.ev("gone"), login=login)
+            app.request("REPORT", "/u/cal/", sync % "", login=login)
+            app.request("DELETE", "/u/cal/gone.ics", login=login)
+            # plant the left-overs in every folder of that kind below the storage folder
+            planted = []
+            for dp, dn, fn in os.walk(app.folder):
+                rel = dp[len(app.folder):]
+                hit = (where == "collection" and rel == "/collection-root/u/cal") or \
+                      (where != "collection" and os.path.basename(dp) == where and ".Radicale.cache" in rel and "/u/cal" in rel)
+                if hit:
+                    for nm in names:
+                        target = os.path.join(dp, nm.rstrip("/"))
+                        if nm.endswith("/") or nm.startswith(".Radicale.tmp-"):
+                            os.makedirs(target, exist_ok=True)
+                            with open(os.path.join(target, "gone.ics"), "w") as f:
+                                f.write("partial")
+                        elif not os.path.exists(target):
+                            with open(target, "w") as f:
+                                f.write("left-over")
+                        planted.append(target[len(app.folder):])
+            case0 = {"where": where, "history_subfolder": hist_sub, "synctoken_subfolder": tok_sub, "planted": planted}
+            if not planted:
+                ctx.disagree("no folder %r found to plant left-overs in" % where, case0, "none", "one")
+                continue
+            steps = [("REPORT", "/u/cal/", sync % "", {}), ("REPORT", "/u/cal/", sync % (tok0 or ""), {}), ("PROPFIND", "/u/cal/", plist, {"HTTP_DEPTH": "1"}),
+                     ("PUT", "/u/cal/new.ics", scenarios.ev("new"), {}), ("REPORT", "/u/cal/", sync % (tok0 or ""), {}), ("GET", "/u/cal/", None, {}),
+                     ("DELETE", "/u/cal/new.ics", None, {}), ("REPORT", "/u/cal/", sync % "", {})]
+            for k, (method, path, body, env) in enumerate(steps):
+                try:
+                    st, hd, text = app.request(method, path, body, login=login, **env)
+                except Exception as e:
+                    st, hd, text = 599, {}, repr(e)
+                case = dict(case0, step=k, method=method, path=path, status=st, body=(body or "")[:120])
+                ctx.case("leftover:%s:%s" % (where, method), sample=case, key=[where, hist_sub, tok_sub, k], nontrivial=True)
+                if not 200 <= st < 300:
+                    ctx.violation("with left-over temporary names in the %s folder %s %s answers %d" % (where, method, path, st), case)
+                    continue
+                if st == 207:
+                    ms, order, _ = parse_multistatus(text)
+                    bad = [h for h in order if any(not pathutils.is_safe_filesystem_path_component(c) for c in h.strip("/").split("/") if c)]
+                    if bad:
+                        ctx.violation("internal names are listed as members: %s" % bad, case)
+                if "partial" in text or "left-over" in text:
+                    ctx.violation("content of an internal file was served", case)
+
+
 def run(ctx):
     ctx.extra["rule"] = ("(a) path-like strings from dot/empty/encoded/backslash/unicode/reserved segments for sanitize_path, the component "
                          "predicates, path_to_filesystem, token names; (b) shell metacharacter strings through shlex.quote and the real /bin/sh; "
@@ -477,3 +543,4 @@ def run(ctx):
     function_level(ctx)
     shell_level(ctx)
     end_to_end(ctx)
+    leftover_level(ctx)
